@@ -280,7 +280,7 @@ func c18GenURI(r *core.Rand) (uri []byte, typ string) {
 	}
 	b64 := r.Chance(2, 5)
 	if b64 {
-		sb.WriteString(";base64")
+		sb.WriteString(r.Pick([]string{";base64", ";base64", ";base64", ";base64", ";BASE64", ";Base64"})) // (the token is case-insensitive)
 	}
 	sb.WriteString(",")
 	payload := c18GenPayload(r, typ)
@@ -403,6 +403,11 @@ func c18CheckDataURI(reg c18Reg, uri []byte, totalityOnly bool) (bad string, non
 // c18ViaCSS: the same data URI inside a style sheet's url(), in both quote styles: what a CSS consumer reads out of
 // the minified sheet must decode to what the helper returns for the URI alone.
 func c18ViaCSS(m *minify.M, uri []byte) (bad string, applicable bool) {
+	defer func() {
+		if r := recover(); r != nil {
+			bad, applicable = fmt.Sprintf("panic: %v", r), true
+		}
+	}()
 	in, ok := rfc2397Decode(uri)
 	if !ok || !in.validEnc {
 		return "", false
